@@ -3,7 +3,9 @@ package c09
 
 import (
 	"fmt"
+	"os"
 	"runtime"
+	"strconv"
 	"sync"
 	"sync/atomic"
 	"testing"
@@ -40,14 +42,14 @@ type program struct {
 }
 
 type op struct {
-	g        int
-	kind     int
-	ts       uint64
-	amt      int64
-	c0, c1   uint64
-	s0, s1   int
-	result   int64
-	starts   []uint64
+	g      int
+	kind   int
+	ts     uint64
+	amt    int64
+	c0, c1 uint64
+	s0, s1 int
+	result int64
+	starts []uint64
 }
 
 type reset struct{ g, s0, s1 int }
@@ -325,7 +327,15 @@ func TestSystematicSchedules(t *testing.T) {
 		maxPre = 2
 	}
 	total := 0
+	shard, nshards := 0, 1
+	if v, err := strconv.Atoi(os.Getenv("VERIF_NSHARDS")); err == nil && v > 1 {
+		nshards = v
+		shard, _ = strconv.Atoi(os.Getenv("VERIF_SHARD"))
+	}
 	for pi, p := range progs {
+		if pi%nshards != shard {
+			continue // the enumeration is split over processes by program index
+		}
 		ex := &sched.Explorer{MaxPreempt: maxPre}
 		for {
 			var verdict string
